@@ -87,6 +87,48 @@ func ruleReflectValidity(c *Ctx, rule string, f *ssa.Function) int {
 
 func runC15(c *Ctx) {
 	p := c.P
+	// the discarding codecs are black holes: they never touch the stream they are handed (a nil reader or writer is as
+	// good as any — the other codecs refuse one with an error, these simply have no use for it)
+	for _, gname := range []string{"DiscardConsumer", "DiscardProducer"} {
+		var lit *ssa.Function
+		if pkg := p.SSA.Package(p.TypesPkg("rt")); pkg != nil {
+			if g, ok := pkg.Members[gname].(*ssa.Global); ok {
+				if init := pkg.Func("init"); init != nil {
+					for _, in := range instrs(init) {
+						if st, isSt := in.(*ssa.Store); isSt && st.Addr == ssa.Value(g) {
+							v := st.Val
+							for {
+								if ct, isCT := v.(*ssa.ChangeType); isCT {
+									v = ct.X
+									continue
+								}
+								break
+							}
+							if fn, isFn := v.(*ssa.Function); isFn {
+								lit = fn
+							}
+							if mc, isMC := v.(*ssa.MakeClosure); isMC {
+								lit, _ = mc.Fn.(*ssa.Function)
+							}
+						}
+					}
+				}
+			}
+		}
+		if lit == nil || len(lit.Params) == 0 {
+			c.obR("R15.4", "rt."+gname, "discard-codec-literal", "-", false, "the discarding codec is a function literal", "")
+			continue
+		}
+		used := false
+		if refs := lit.Params[0].Referrers(); refs != nil {
+			for _, r := range *refs {
+				if _, isDbg := r.(*ssa.DebugRef); !isDbg {
+					used = true
+				}
+			}
+		}
+		c.obF("R15.4", lit, "discard-codec-ignores-its-stream", !used, "rt."+gname+" never uses the stream it is handed (so a nil one cannot make it panic)", "the stream parameter is used")
+	}
 	codecs := []codec{
 		{"rt.ByteStreamConsumer", 0, 1}, {"rt.ByteStreamProducer", 0, 1},
 		{"rt.TextConsumer", 0, 1}, {"rt.TextProducer", 0, 1},
@@ -95,6 +137,8 @@ func runC15(c *Ctx) {
 		{"rt/yamlpc.YAMLConsumer", 0, 1}, {"rt/yamlpc.YAMLProducer", 0, 1},
 	}
 	nValid := 0
+	var codecFns []*ssa.Function
+	defer func() { checkBounds(c, "R15.3", codecFns, map[string]string{}) }()
 	for _, cd := range codecs {
 		outer := p.Fn(cd.outer)
 		f := codecFuncOf(outer, 2, 1)
@@ -310,6 +354,8 @@ func runC15(c *Ctx) {
 		}
 		// R15.3
 		nValid += ruleReflectValidity(c, "R15.3", f)
+		// "never panic": every index / slice expression of a codec (and of the helpers it is moved into) is in range
+		codecFns = append(codecFns, f)
 		// a codec holds no scratch memory across calls: the function literal captures no byte buffer made by its
 		// constructor (one producer/consumer value serves concurrent requests; a shared copy buffer interleaves them)
 		for _, in := range instrs(outer) {
@@ -369,6 +415,43 @@ func runC15(c *Ctx) {
 					}
 					c.obI("R15.5", r, "success-only-after-delivery", !pathExists(f, rf, r, nil, isDeliver), "after buffering the stream, ByteStreamConsumer returns nil only once the bytes were stored into the destination", "a nil error is returned after buffering although nothing was delivered")
 				}
+			}
+		}
+		// a *interface{} destination is filled according to what it holds: a string where it holds a string, the bytes
+		// where it holds a []byte — each store sits behind the matching type test of the current content; any other
+		// content is left alone and ends in the "not supported" error
+		if cd.outer == "rt.ByteStreamConsumer" {
+			for _, in := range instrs(f) {
+				st, ok := in.(*ssa.Store)
+				if !ok || (typeStr(st.Addr.Type()) != "*interface{}" && typeStr(st.Addr.Type()) != "*any") {
+					continue
+				}
+				mi, isMI := st.Val.(*ssa.MakeInterface)
+				if !isMI {
+					continue
+				}
+				if isDest, _ := allOrigins(st.Addr, oIsValue(data)); !isDest {
+					continue
+				}
+				want := typeStr(mi.X.Type())
+				holds := func(cond ssa.Value, branch bool) bool {
+					cnd, b := stripNot(cond, branch)
+					ex, isEx := cnd.(*ssa.Extract)
+					if !isEx || ex.Index != 1 || !b {
+						return false
+					}
+					ta, isTA := ex.Tuple.(*ssa.TypeAssert)
+					if !isTA || typeStr(ta.AssertedType) != want {
+						return false
+					}
+					ld, isLd := derefLoad(ta.X)
+					if !isLd {
+						return false
+					}
+					okD, _ := allOrigins(ld, oIsValue(data))
+					return okD
+				}
+				c.obI("R15.3", st, "interface-destination-keeps-its-kind", guardedBy(st, nil, holds), "a *interface{} destination receives a "+want+" only when it currently holds a "+want+" (anything else is an unsupported destination, reported as an error)", "the destination is overwritten with a "+want+" whatever it held")
 			}
 		}
 		// reflect.Value.SetBytes needs a slice of BYTES, SetString a string: each is called only behind the matching kind
